@@ -94,6 +94,24 @@ def run(tier, seed, which="C17"):
                 nT, rT = names[::-1], ["--" + r for r in T[::-1]]
             filecase("tiny%d" % k, names, R, nT, rT, fm, ["fasta", "clu", "msf"][(k // 3) % 3])
             k += 1
+    # A2. wide and tall synthetic alignments from files: 45..130 rows (every pair of rows enters the score), widths beyond one
+    # block, perturbed copy (one row shifted against the others), permuted copy, identical copy
+    for j, (nr, W) in enumerate([(45, 30), (64, 61), (130, 20)] if tier == "quick" else [(41, 30), (45, 30), (64, 61), (100, 80), (130, 20), (257, 12)]):
+        base = [gen.rand_seq(rng, gen.DNA, W) for _ in range(nr)]
+        names = ["t%03d" % i for i in range(nr)]
+        R = ["".join(c if rng.random() > 0.1 else "-" for c in r) for r in base]
+        R = [r if any(c != "-" for c in r) else "A" + r[1:] for r in R]
+        Wd = max(len(r) for r in R)
+        T = list(R)
+        for v in range(3):
+            k2 = nr - 1 - v if v else rng.randrange(nr)      # also the very last row
+            res = T[k2].replace("-", "")
+            T[k2] = ("-" * (Wd - len(res))) + res              # all residues pushed to the right end
+        order = list(range(nr))
+        rng.shuffle(order)
+        filecase("tall%d_perturbed" % j, names, R, names, T, "fasta", ["fasta", "clu", "msf"][j % 3])
+        filecase("tall%d_permuted" % j, names, R, [names[o] for o in order], [T[o] for o in order], "fasta", "fasta")
+        filecase("tall%d_same" % j, names, R, [names[o] for o in order], [R[o] for o in order], ["clu", "msf", "fasta"][j % 3], "fasta")
     # B. real alignments: two runs with different parameters compared in process, and against perturbed / permuted copies from files
     nb = 15 if tier == "quick" else 250
     for i in range(nb):
